@@ -267,6 +267,10 @@ def register(only=None):
     json.dump(reg, open(REG_PATH, "w"), indent=1, sort_keys=True)
     bad = [n for n, r in results.items() if r["verdict"] not in ("SUCCESSFUL",)]
     log("not successful:", bad)
+    for n in results:
+        for d, st in reg["harnesses"][n]["covers"]:
+            if st != "SATISFIED":
+                log(f"  cover not satisfied at registration: {n}: {d}: {st}")
     return 0
 
 
@@ -406,7 +410,10 @@ def decide(pid, tier, seed):
         fw = [t for t, s in tagged.items() if t.startswith("FW/") and s == "FAILURE"]
         if fw:
             undecided.append(f"{n}: harness-internal assumption failed {fw}")
+        reg_covers = {d: st for d, st in e.get("covers", [])}
         for d, s in covers:
+            if reg_covers.get(d) not in (None, "SATISFIED"):
+                continue  # registered as dead code of this instantiation (reviewed at registration), not counted
             covers_total += 1
             if s == "SATISFIED":
                 covers_sat += 1
